@@ -14,5 +14,5 @@ for sid in "$@"; do
     echo "$sid $p $v" >> build/matrix2.txt
   done
   git -C $wt checkout -q -- .
-  rm -rf build/alt/$sid/target
+  rm -rf build/alt/wt2_$sid/target
 done
